@@ -30,7 +30,13 @@ ASSUMPTIONS = ["sampling rate fs > 0 (frequencies k*fs/n order like k). The one-
                "float_ambiguous: the result must then be the estimate with or without that last segment; everything else is judged exactly there too (get_slice rounds its bounds to the nanosecond)",
                "when no estimate exists (no segment fits strictly inside an epoch / a segment without samples) any exception is accepted; its type is recorded (mean:no_estimate_raised=...)",
                "segments with unequal sample counts (irregular sampling) are truncated to the first N = min count samples by the implementation; the statement speaks of equal-length "
-               "segments, so such cases are checked as correspondence (model vs implementation) only"]
+               "segments, so such cases are checked as correspondence (model vs implementation) only",
+               "widened forms: a NaN / +inf / -inf sample inside the epoch (inside a segment) makes exactly the bins of that column non-finite (the DFT sum holds the sample with a non-zero "
+               "coefficient in every bin); outside the epoch it must not matter. Forms the documented signatures do not promise to accept (n as a numpy integer, overlap as int / np.float32, a 0-d array "
+               "for fs / interval_size, time_unit in another letter case, an epoch without samples and n=None) are `lenient`: a clean Python exception or a result that satisfies the statement. "
+               "The model (an exact field) is not compared where the implementation computes in single precision (float32 / float16 data, np.float32 fs or interval_size), where an integer-typed fs wraps "
+               "in fs*n, or on non-finite samples: there only the statement oracle judges, and the key of a violation names the regime (data_single_precision, fs_single_precision, fs_times_n_overflows, "
+               "interval_size_float32_rescaled_inexactly; within_single_precision = the same oracle passes at float32 tolerances)"]
 
 U = 1953125          # 2^-9 s in ticks
 RTOL = 1e-9
@@ -135,14 +141,38 @@ def oracle_mean_psd(ts, vs, ep, L, st, fs, full, closed=()):
             "slices": [(sum(1 for t in ts if t < a), sum(1 for t in ts if t <= b)) for a, b in segs]}
 
 
+TOL = {"r": RTOL, "k": 1e-7, "m": 1e-6}            # the declared tolerances of the oracle (values comparison, integer recovery of k, snapping of the multiplier)
+TOL_SINGLE = {"r": 1e-5, "k": 1e-4, "m": 1e-3}     # NEVER used to judge: a second pass that labels a violation `within_single_precision` in its key
+
+
 def close(a, b, scale):
-    return abs(a - b) <= RTOL * (1.0 + scale)
+    if not (np.isfinite(a) and np.isfinite(b)):
+        # non-finite data (NaN / +inf / -inf samples inside the epoch): the DFT sum is non-finite in that bin, and only then
+        return (not np.isfinite(a)) and (not np.isfinite(b))
+    return abs(a - b) <= TOL["r"] * (1.0 + scale)
+
+
+def cclose(v, w, scale):
+    """complex values: both finite and close in both parts, or both non-finite"""
+    v, w = complex(v), complex(w)
+    fv, fw = np.isfinite(v.real) and np.isfinite(v.imag), np.isfinite(w.real) and np.isfinite(w.imag)
+    if not (fv and fw):
+        return (not fv) and (not fw)
+    return close(v.real, w.real, scale) and close(v.imag, w.imag, scale)
+
+
+def fin_max(a):
+    a = np.asarray(a, float).ravel()
+    a = a[np.isfinite(a)]
+    return float(np.max(a)) if len(a) else 0.0
 
 
 def rec_k(f, n, fs):
     q = f * n / fs
+    if not np.isfinite(q):
+        return None
     k = int(round(q))
-    return k if abs(q - k) < 1e-7 else None
+    return k if abs(q - k) < TOL["k"] else None
 
 
 def frac(fs):
@@ -164,18 +194,24 @@ def mk_sig(nap, ts, cols, support):
 
 def model_lines_single(c):
     ts, s, e, n, full = c["ts"], c["s"], c["e"], c["n"], c["full"]
-    x = [v for t, v in zip(ts, c["cols"][0]) if s <= t <= e]
+    col0 = [v if np.isfinite(v) else 0 for v in c["cols"][0]]      # NaN / inf samples (widened forms) are not model inputs
+    x = [v for t, v in zip(ts, col0) if s <= t <= e]
     n1 = len(x) if n is None else n
     return ["positions\t%d\t%d" % (int(full), n1),
-            "signal\t%s\t%s\t%d\t%d\t%d" % (C.fmt_ints(ts), C.fmt_ints(c["cols"][0]), s, e, -1 if n is None else n)]
+            "signal\t%s\t%s\t%d\t%d\t%d" % (C.fmt_ints(ts), C.fmt_ints(col0), s, e, -1 if n is None else n)]
 
 
 def check_single(nap, c, mout, res=None):
     """returns (violations, disagreements). c: dict ts, cols, support, ep, s, e, n, fs, full, norm"""
     V, D = [], []
     ts, cols, s, e, n, full, norm = c["ts"], c["cols"], c["s"], c["e"], c["n"], c["full"], c["norm"]
-    sig = mk_sig(nap, ts, cols, c["support"])
-    ep = nap.IntervalSet(G.arr([s]), G.arr([e])) if c["ep"] else None
+    F = c.get("form")                 # widened argument forms (None = the plain form: float64 ndarrays, keywords, Python floats)
+    if F is None:
+        sig = mk_sig(nap, ts, cols, c["support"])
+        ep = nap.IntervalSet(G.arr([s]), G.arr([e])) if c["ep"] else None
+    else:
+        sig = mk_sig_form(nap, c)
+        ep = mk_ep_form(nap, [(s, e)] if c["ep"] != "empty" else [], F.get("epform", "arrays"), F.get("g", 2 * U)) if c["ep"] else None
     fs_eff = float(c["fs"]) if c["fs"] is not None else float(sig.rate)
     inp = {k: c[k] for k in ("ts", "cols", "support", "ep", "s", "e", "n", "fs", "full", "norm")}
     kw = {}
@@ -185,26 +221,54 @@ def check_single(nap, c, mout, res=None):
         kw["ep"] = ep
     if n is not None:
         kw["n"] = n
+    trig, lenient, skip_model = {}, None, False
+    if F is not None:
+        inp["form"] = F
+        if c["fs"] is not None:
+            kw["fs"] = mk_scalar(c["fs"], F.get("fsform", "float"))
+        if n is not None:
+            kw["n"] = mk_scalar(n, F.get("nform", "int"))
+        lenient = F.get("lenient")       # a form the documented signature does not promise to accept: a clean exception or the statement
+        n_eff = n if n is not None else sum(1 for t in ts if s <= t <= e)
+        trig = triggers(sig, kw.get("fs"), n_eff)
+        bad0 = any(not np.isfinite(v) for t, v in zip(ts, cols[0]) if s <= t <= e)
+        skip_model = bool(trig) or bad0      # the model's field is exact: single-precision / wrapped-integer arithmetic and NaN are outside it
+        if F.get("hist") == "twice":         # the same live objects used before: every operation once, results discarded
+            for op_ in ("fft", "psd"):
+                try:
+                    call_single(nap, op_, sig, F, kw, full, norm)
+                except Exception:
+                    pass
     pos_k = [int(q) for q in mout[0].split("|")[0].split()]
     pos_p = [int(q) for q in mout[0].split("|")[1].split()]
     sg = mout[1].split("|")
     m_idx, m_cp, m_ss = [int(q) for q in sg[0].split()], [int(q) for q in sg[1].split()], int(sg[2])
     # correspondence: restrict of the public API selects the model's indices
     r_idx = [int(np.searchsorted(sig.t, q)) for q in sig.restrict(nap.IntervalSet(G.arr([s]), G.arr([e]))).t]
-    if r_idx != m_idx:
+    if len(set(ts)) < len(ts):       # duplicate timestamps: searchsorted names the first of each run; compare the number of samples selected per instant
+        r_idx, m_idx_c = sorted(r_idx), sorted(int(np.searchsorted(sig.t, ts[j] / 1e9)) for j in m_idx)
+    else:
+        m_idx_c = m_idx
+    if r_idx != m_idx_c:
         D.append({"op": "restrict(epoch) vs model epoch_idx", "input": inp, "impl": r_idx, "model": m_idx})
     # ---------------- compute_fft
     try:
-        out = nap.compute_fft(sig, full_range=full, norm=norm, **kw)
+        out = nap.compute_fft(sig, full_range=full, norm=norm, **kw) if F is None else call_single(nap, "fft", sig, F, kw, full, norm)
     except Exception as ex:
-        V.append({"key": {"op": "compute_fft", "full_range": full, "norm": norm, "part": "raises"}, "what": "compute_fft raised on a valid single-epoch input",
+        if lenient:
+            if res is not None:
+                res.count("wide:lenient:%s:compute_fft_rejected=%s" % (lenient, type(ex).__name__))
+            return V, D
+        V.append({"key": dict({"op": "compute_fft", "full_range": full, "norm": norm, "part": "raises"}, **trig), "what": "compute_fft raised on a valid single-epoch input",
                   "input": inp, "impl": repr(ex)[:300], "expected": "the DFT rows"})
         return V, D
+    if lenient and res is not None:
+        res.count("wide:lenient:%s:compute_fft_accepted(judged by the statement)" % lenient)
     for ci, col in enumerate(cols):
         rows, y, X = oracle_fft(ts, col, s, e, n, fs_eff, full, norm)
         n1 = len(y)
-        key = {"op": "compute_fft", "full_range": full, "norm": norm}
-        if ci == 0 and (y != m_cp or sum(v * v for v in y) != m_ss):
+        key = dict({"op": "compute_fft", "full_range": full, "norm": norm}, **{k_: v_ for k_, v_ in trig.items() if k_ != "fs_times_n_overflows"})
+        if ci == 0 and not skip_model and (y != m_cp or sum(v * v for v in y) != m_ss):
             D.append({"op": "crop_pad model vs statement", "input": inp, "model": m_cp, "expected": y})
         nyq = (not full) and n1 % 2 == 0 and len(out) == len(rows) + 1
         if nyq:
@@ -223,17 +287,17 @@ def check_single(nap, c, mout, res=None):
             V.append({"key": dict(key, part="index"), "what": "frequencies are not the sorted np.fft.fftfreq(n, 1/fs)", "input": inp,
                       "impl": fi.tolist(), "expected": [r[1] for r in rows]})
             continue
-        if ks != pos_k and not nyq:
+        if ks != pos_k and not nyq and not skip_model:
             D.append({"op": "compute_fft keys vs model fft_positions", "input": inp, "impl": ks, "model": pos_k})
         vals = np.asarray(out.values[:, ci], complex)
-        sc = float(np.max(np.abs(X))) / (n1 if norm else 1)
-        if not all(close(v.real, r[2].real, sc) and close(v.imag, r[2].imag, sc) for v, r in zip(vals, rows)):
+        sc = fin_max(np.abs(X)) / (n1 if norm else 1)
+        if not all(cclose(v, r[2], sc) for v, r in zip(vals, rows)):
             V.append({"key": dict(key, part="values"), "what": "values are not the DFT of the samples inside the epoch (cropped/padded to n%s)" % (", divided by n" if norm else ""),
                       "input": inp, "impl": [complex(v) for v in vals], "expected": [complex(r[2]) for r in rows]})
             continue
-        if len(pos_p) == len(vals):
+        if len(pos_p) == len(vals) and not skip_model:
             mv = [X[p] / (n1 if norm else 1) for p in pos_p]
-            if not all(close(v.real, w.real, sc) and close(v.imag, w.imag, sc) for v, w in zip(vals, mv)):
+            if not all(cclose(v, w, sc) for v, w in zip(vals, mv)):
                 D.append({"op": "compute_fft rows vs model positions", "input": inp, "model_positions": pos_p})
             if full and ci == 0:
                 # discrete recovery: undo the model's permutation, invert, round -> the integer n-point signal
@@ -247,16 +311,20 @@ def check_single(nap, c, mout, res=None):
     # ---------------- compute_power_spectral_density (norm does not apply)
     if not norm:
         try:
-            out = nap.compute_power_spectral_density(sig, full_range=full, **kw)
+            out = nap.compute_power_spectral_density(sig, full_range=full, **kw) if F is None else call_single(nap, "psd", sig, F, kw, full, norm)
         except Exception as ex:
-            V.append({"key": {"op": "compute_power_spectral_density", "full_range": full, "part": "raises"}, "what": "PSD raised on a valid single-epoch input",
+            if lenient:
+                if res is not None:
+                    res.count("wide:lenient:%s:psd_rejected=%s" % (lenient, type(ex).__name__))
+                return V, D
+            V.append({"key": dict({"op": "compute_power_spectral_density", "full_range": full, "part": "raises"}, **trig), "what": "PSD raised on a valid single-epoch input",
                       "input": inp, "impl": repr(ex)[:300], "expected": "the PSD rows"})
             return V, D
         mm = mout[2].split("|") if len(mout) > 2 else None
         for ci, col in enumerate(cols):
             rows, y, X = oracle_psd(ts, col, s, e, n, fs_eff, full)
             n1 = len(y)
-            key = {"op": "compute_power_spectral_density", "full_range": full, "regime": "fs/(2n)<=1e-6" if fs_eff / (2 * n1) <= 1.0000001e-6 else "fs/(2n)>1e-6"}
+            key = dict({"op": "compute_power_spectral_density", "full_range": full, "regime": "fs/(2n)<=1e-6" if fs_eff / (2 * n1) <= 1.0000001e-6 else "fs/(2n)>1e-6"}, **trig)
             nyq = (not full) and n1 % 2 == 0 and len(out) == len(rows) + 1
             if nyq:     # one-sided form that keeps the Nyquist bin (at +fs/2): it must NOT be doubled
                 rows = rows + [(n1 // 2, fs_eff / 2, 1, abs(X[n1 // 2]) ** 2 / (fs_eff * n1))]
@@ -271,13 +339,13 @@ def check_single(nap, c, mout, res=None):
                 continue
             vals = np.asarray(out.values[:, ci], float)
             P = np.abs(X) ** 2
-            pmax = float(np.max(P))
+            pmax = fin_max(P)
             mults = []
             for v, k in zip(vals, ks):
                 p = P[k % n1]
-                if p > 1e-6 * pmax and pmax > 0:
+                if p > 1e-6 * pmax and pmax > 0 and np.isfinite(p):
                     q = v * fs_eff * n1 / p
-                    mults.append(1 if abs(q - 1) < 1e-6 else 2 if abs(q - 2) < 1e-6 else round(q, 6))
+                    mults.append(1 if abs(q - 1) < TOL["m"] else 2 if abs(q - 2) < TOL["m"] else round(float(q), 6))
                 else:
                     mults.append(None)
                     if res is not None:
@@ -287,7 +355,7 @@ def check_single(nap, c, mout, res=None):
                 V.append({"key": dict(key, part="scale/doubling"), "what": "psd_k*fs*n/|X_k|^2 is not 1 (2 exactly on the strictly positive non-Nyquist frequencies of the one-sided form)",
                           "input": inp, "impl": mults, "expected": exp_m})
                 continue
-            if mm is not None and not nyq:
+            if mm is not None and not nyq and not skip_model:
                 m_k, m_m = [int(q) for q in mm[0].split()], [int(q) for q in mm[1].split()]
                 if m_k != ks or any(m is not None and m != x_ for m, x_ in zip(mults, m_m)):
                     D.append({"op": "PSD multipliers vs model psd_mults", "input": inp, "impl": mults, "model": list(zip(m_k, m_m))})
@@ -300,14 +368,16 @@ def check_single(nap, c, mout, res=None):
             if full:
                 if not close(tot, ms, ms):
                     V.append({"key": dict(key, part="parseval"), "what": "sum(psd)*fs/n differs from the mean square of the n-point signal", "input": inp, "impl": tot, "expected": ms})
-                elif ci == 0:
+                elif ci == 0 and not skip_model:
                     q = float(np.sum(vals)) * fs_eff
                     if abs(q - m_ss) > 1e-6 * (1 + m_ss):
                         D.append({"op": "total power vs model sum of squares", "input": inp, "impl": q, "model": m_ss})
             else:
                 # theorem C19_onesided_sum_odd / _even (recorded behaviour, checked as correspondence)
                 want = ms - ((P[n1 // 2] / (fs_eff * n1)) * fs_eff / n1 if (n1 % 2 == 0 and not nyq) else 0.0)
-                if not close(tot, want, ms):
+                if skip_model:
+                    pass
+                elif not close(tot, want, ms):
                     D.append({"op": "one-sided total vs theorem onesided_sum", "input": inp, "impl": tot, "model": want})
                 elif res is not None and n1 % 2 == 0 and not nyq and P[n1 // 2] > 1e-9:
                     res.count("even_n_onesided_drops_nyquist(recorded): one-sided total power = mean square - Nyquist term")
@@ -432,24 +502,46 @@ def check_mean(nap, c, mline, res=None, closed=()):
     V, D, B = [], [], []      # violations, model disagreements, statement mismatches on non-uniform segments (correspondence only)
     ts, cols, ep, L, st, ov, full, unit = c["ts"], c["cols"], c["ep"], c["L"], c["st"], c["ov"], c["full"], c["unit"]
     inp = {k: c[k] for k in ("ts", "cols", "ep", "L", "st", "ov", "fs", "full", "unit", "support")}
-    sig = mk_sig(nap, ts, cols, c["support"])
+    F = c.get("form")                 # widened argument forms (None = the plain form)
+    sig = mk_sig(nap, ts, cols, c["support"]) if F is None else mk_sig_form(nap, c)
     fs_eff = float(c["fs"]) if c["fs"] is not None else float(sig.rate)
     kw = {}
     if c["fs"] is not None:
-        kw["fs"] = float(c["fs"])
+        kw["fs"] = float(c["fs"]) if F is None else mk_scalar(c["fs"], F.get("fsform", "float"))
     if c["ep_given"]:
-        kw["ep"] = nap.IntervalSet(G.arr([s for s, _ in ep]), G.arr([e for _, e in ep]))
+        kw["ep"] = nap.IntervalSet(G.arr([s for s, _ in ep]), G.arr([e for _, e in ep])) if F is None else mk_ep_form(nap, ep, F.get("epform", "arrays"), F.get("g", 2 * U))
     isz = {"s": L / 1e9, "ms": L / 1e6, "us": L / 1e3}[unit]
+    trig, lenient = {}, None
+    if F is not None:
+        inp["form"], inp["ep_given"] = F, c["ep_given"]
+        trig = {k_: v_ for k_, v_ in triggers(sig, kw.get("fs"), 0).items() if k_ != "data_single_precision"}    # the windowed product is float64 for every data dtype
+        if F.get("isform") == "np.float32" and unit != "s":
+            q_ = np.float32(1e3 if unit == "ms" else 1e6)
+            if float(np.float32(isz) / q_) != L / 1e9:
+                trig["interval_size_float32_rescaled_inexactly"] = True      # the float32 scalar is divided by 1e3 / 1e6 in single precision
+        lenient = F.get("lenient")
     try:
-        out = nap.compute_mean_power_spectral_density(sig, isz, overlap=float(ov), full_range=full, time_unit=unit, **kw)
+        if F is None:
+            out = nap.compute_mean_power_spectral_density(sig, isz, overlap=float(ov), full_range=full, time_unit=unit, **kw)
+        else:
+            if F.get("hist") == "twice" and not closed:
+                try:
+                    call_mean(nap, sig, F, isz, ov, unit, full, kw)
+                except Exception:
+                    pass
+            out = call_mean(nap, sig, F, isz, ov, unit, full, kw)
     except Exception as ex:
         out = None
         if res is not None and not closed:
-            res.count("mean:no_estimate_raised=" + type(ex).__name__)
+            res.count(("mean:no_estimate_raised=" if F is None else "wide:mean:raised=") + type(ex).__name__)
+        if lenient:
+            if res is not None and not closed:
+                res.count("wide:lenient:%s:mean_rejected=%s" % (lenient, type(ex).__name__))
+            return V, D, B
     plan = None if mline == "none" else mline.split("|")
     for ci, col in enumerate(cols):
         exp = oracle_mean_psd(ts, col, ep, L, st, fs_eff, full, closed)
-        key = {"op": "compute_mean_power_spectral_density", "full_range": full, "lattice": c.get("lattice", "dyadic")}
+        key = dict({"op": "compute_mean_power_spectral_density", "full_range": full, "lattice": c.get("lattice", "dyadic")}, **trig)
         if ci == 0 and not closed:
             if (exp is None) != (plan is None):
                 D.append({"op": "mean_plan model vs statement (existence)", "input": inp, "model": mline, "expected": None if exp is None else exp["N"]})
@@ -488,10 +580,12 @@ def check_mean(nap, c, mline, res=None, closed=()):
                            "expected": [r[1] for r in rows]})
             continue
         vals = np.asarray(out.values[:, ci], float)
-        sc = max(abs(r[2]) for r in rows)
+        sc = fin_max([abs(r[2]) for r in rows])
         if not all(close(v, r[2], sc) for v, r in zip(vals, rows)):
             bucket.append({"key": dict(key, part="values"), "op": "mean_psd", "what": "values are not the average of the Hamming-windowed periodograms of the segments%s"
                            % ("" if full else " (one-sided: doubled on 0 < f < Nyquist)"), "input": inp, "impl": vals.tolist(), "expected": [r[2] for r in rows]})
+    if trig:
+        B = []          # correspondence-only comparison (unequal segments) is not made in an arithmetic regime outside the model (the statement oracle V stays)
     return V, D, B
 
 
@@ -720,6 +814,763 @@ def run_split_decimal(S, res, tier, seed):
         res.disagreements.extend(D)
 
 
+# ================================================================================================
+# WIDENED ARGUMENT FORMS (round 4): the same statement oracles, inputs given in every form the public signatures accept.
+# A case is a plain case dict plus "form" = a JSON-friendly dict of strings / ints:
+#   g        sampling step of the case in ticks (2U dyadic, 10^9 whole seconds, or the decimal step)
+#   dtype    dtype of the data array                  tform / tunit   form and unit of the `t` argument of the constructor
+#   cls      "Tsd" | "TsdFrame" (a 1-column TsdFrame when there is one column)      labels / meta   TsdFrame column labels, metadata
+#   hist     how the object was obtained (None = constructor)                       call   how the public function is called
+#   fsform / nform / isform / ovform   type of the scalar arguments                 epform form of the IntervalSet
+#   unitpass "kw" | "default"   unitcase: the time_unit string in another letter case (lenient)
+#   lenient  name of a form the documented signature does not promise to accept: a clean exception or the statement
+SIGNED = ("int64", "int32", "int16", "int8")
+UNSIGNED = ("uint8", "uint16", "uint32", "uint64")
+LOWP = ("float32", "float16")
+INT_T = ("int64", "int32", "int16", "uint64", "uint32", "uint16", "uint8")
+_TMP = []
+
+
+def _tmpdir():
+    if not _TMP:
+        import tempfile
+        _TMP.append(tempfile.mkdtemp(prefix="c19_"))
+    return _TMP[0]
+
+
+def mk_scalar(v, form):
+    if form in ("float", None):
+        return float(v)
+    if form == "int":
+        return int(v)
+    if form == "0d":
+        return np.array(float(v))          # a 0-d array (lenient: not a numbers.Number)
+    return getattr(np, form[3:])(v)       # "np.float32", "np.int64", ...
+
+
+def scalar_forms(v, small_ints=True):
+    """forms in which the number v can be written exactly"""
+    out = ["float", "np.float64"]
+    if float(np.float32(v)) == float(v):
+        out.append("np.float32")
+    if float(v) == int(v):
+        out += ["int", "np.int64"]
+        for nm in ("int32", "int16", "int8", "uint8", "uint16") if small_ints else ():
+            ii = np.iinfo(nm)
+            if ii.min <= int(v) <= ii.max:
+                out.append("np." + nm)
+    return out
+
+
+def triggers(sig, fsv, n_eff):
+    """the arithmetic regime of the call, named in the key of every violation of a widened case (one boolean per trigger)"""
+    tr = {}
+    if np.asarray(sig.values).dtype in (np.dtype("float32"), np.dtype("float16")):
+        tr["data_single_precision"] = True           # NumPy >= 2 transforms float32 / float16 input in single precision
+    if isinstance(fsv, (np.float32, np.float16)):
+        tr["fs_single_precision"] = True             # a float32 scalar is not weak: 1/fs and fs*n are rounded to single precision
+    if isinstance(fsv, np.integer) and n_eff and int(fsv) * int(n_eff) > np.iinfo(type(fsv)).max:
+        tr["fs_times_n_overflows"] = True            # fs * n evaluated in the (small) integer dtype of fs
+    return tr
+
+
+def time_arg(nap, ticks, tform, unit):
+    q = {"s": 10 ** 9, "ms": 10 ** 6, "us": 10 ** 3}[unit]
+    if tform in INT_T:
+        assert all(t % q == 0 for t in ticks), "integer time form on a non-integral lattice"
+        return np.asarray([t // q for t in ticks], dtype=tform)
+    a = np.asarray(ticks, dtype=np.float64) / float(q) if len(ticks) else np.array([], dtype=np.float64)
+    if tform == "list":
+        return a.tolist()
+    if tform == "tuple":
+        return tuple(a.tolist())
+    if tform == "pd.Index":
+        import pandas as pd
+        return pd.Index(a)
+    if tform == "float32":
+        return a.astype(np.float32)
+    if tform == "TsIndex":
+        return nap.Ts(a, time_units=unit).index       # another object's TsIndex (seconds)
+    if tform == "other.t":
+        return nap.Ts(a, time_units=unit).t
+    return a                                            # "ndarray", "series"
+
+
+def time_forms(ticks, unit):
+    """the forms of `t` in which these ticks can be written exactly"""
+    q = {"s": 10 ** 9, "ms": 10 ** 6, "us": 10 ** 3}[unit]
+    out = ["ndarray", "list", "tuple", "pd.Index", "series", "TsIndex", "other.t"]
+    if len(ticks):
+        a = np.asarray(ticks, dtype=np.float64) / float(q)
+        if np.array_equal(a.astype(np.float32).astype(np.float64), a):
+            out.append("float32")
+        if all(t % q == 0 for t in ticks):
+            v = [t // q for t in ticks]
+            for nm in INT_T:
+                ii = np.iinfo(nm)
+                if ii.min <= min(v) and max(v) <= ii.max:
+                    out.append(nm)
+    return out
+
+
+def mk_sig_form(nap, c):
+    import pandas as pd
+    F = c["form"]
+    ts = list(c["ts"])
+    cols = [list(col) for col in c["cols"]]
+    support = tuple(c["support"]) if c.get("support") is not None else None
+    g, hist, dtype = F.get("g", 2 * U), F.get("hist"), F.get("dtype", "float64")
+    tform, unit = F.get("tform", "ndarray"), F.get("tunit", "s")
+    frame = len(cols) > 1 or F.get("cls") == "TsdFrame"
+    bts, bcols, bsupport, shift = ts, cols, support, 0
+    if hist in ("restrict", "slice", "get"):
+        # the object is cut out of a longer one: two more samples far before and after (never inside a window of the case)
+        bts = [ts[0] - 65 * g, ts[0] - 64 * g] + ts + [ts[-1] + 64 * g, ts[-1] + 65 * g]
+        bcols = [[1, 0] + col + [1, 1] for col in cols]
+        bsupport = (ts[0] - 66 * g, ts[-1] + 66 * g)
+        shift = 2
+    if hist == "colview":
+        # the object is one / every second column of a wider TsdFrame
+        wide = []
+        for col in bcols:
+            wide += [col, [1] * len(col)]
+        if len(cols) == 1:
+            wide = [[0] * len(bts)] + wide
+        bcols, frame0 = wide, True
+    else:
+        frame0 = frame
+    add = 0
+    if hist == "arith":
+        lo = 0 if (dtype in UNSIGNED or dtype == "bool") else -120
+        if all(np.isfinite(v) for col in bcols for v in col) and min(v for col in bcols for v in col) - 1 >= lo and dtype != "bool":
+            add = 1
+        bcols = [[v - add for v in col] for col in bcols]
+    d = np.asarray(bcols, dtype=np.float64).T if bcols and len(bcols[0]) else np.zeros((0, len(bcols)))
+    d = np.ascontiguousarray(d).astype(dtype)
+    if not frame0:
+        d = d[:, 0].copy()
+    t = time_arg(nap, bts, tform, unit)
+    if hist == "shared" and isinstance(t, np.ndarray) and t.dtype == np.float64 and d.dtype == np.float64:
+        buf = np.zeros((len(bts), 1 + (d.shape[1] if d.ndim == 2 else 1)))
+        buf[:, 0] = t
+        buf[:, 1:] = d.reshape(len(bts), -1)
+        t = buf[:, 0]                                  # time and data are views of ONE buffer (strided, sharing memory)
+        d = buf[:, 1:] if d.ndim == 2 else buf[:, 1]
+    if hist == "readonly":
+        d.setflags(write=False)
+        if isinstance(t, np.ndarray):
+            t.setflags(write=False)
+    kw = {}
+    if unit != "s" and tform not in ("TsIndex", "other.t"):
+        kw["time_units"] = unit
+    if bsupport is not None:
+        kw["time_support"] = nap.IntervalSet(G.arr([bsupport[0]]), G.arr([bsupport[1]]))
+    if frame0:
+        ncol = d.shape[1]
+        lab = F.get("labels")
+        labels = None if (lab is None or hist == "colview") else ([7, 3, 9, 1, 5][:ncol] if lab == "int" else ["b", "a", "d", "c", "e"][:ncol])
+        if F.get("meta") and hist != "colview":
+            kw["metadata"] = {"grp": list(range(ncol))}
+        if tform == "series":
+            df = pd.DataFrame(d, index=t, columns=labels)
+            base = nap.TsdFrame(df, **kw)
+        elif labels is not None:
+            base = nap.TsdFrame(t, d, columns=labels, **kw)
+        else:
+            base = nap.TsdFrame(t, d, **kw)
+    elif tform == "series":
+        base = nap.Tsd(pd.Series(d, index=t), **kw)
+    else:
+        base = nap.Tsd(t, d, **kw)
+    sig = base
+    if hist == "restrict":
+        lo_, hi_ = support if support is not None else (ts[0], ts[-1])
+        sig = base.restrict(nap.IntervalSet(lo_ / 1e9, hi_ / 1e9))
+    elif hist == "slice":
+        sig = base[shift:shift + len(ts)]
+    elif hist == "get":
+        sig = base.get(ts[0] / 1e9, ts[-1] / 1e9)
+    elif hist == "arith":
+        sig = base + add
+    elif hist == "numpy":
+        sig = np.copy(base)
+    elif hist == "ufunc":
+        sig = np.multiply(base, 1)
+    elif hist == "saveload":
+        import os
+        path = os.path.join(_tmpdir(), "sig.npz")
+        base.save(path)
+        sig = nap.load_file(path)
+    elif hist == "colview":
+        sig = base[:, 1] if len(cols) == 1 and not frame else (base[:, 1:2] if len(cols) == 1 else base[:, 0:2 * len(cols):2])
+    assert len(sig) == len(ts) and isinstance(sig, (nap.Tsd, nap.TsdFrame)), "harness: the history did not produce the intended object"
+    return sig
+
+
+def mk_ep_form(nap, ep, form, g):
+    import pandas as pd
+    st, en = [s for s, _ in ep], [e for _, e in ep]
+    fs_, fe_ = [s / 1e9 for s in st], [e / 1e9 for e in en]
+    if form == "lists":
+        return nap.IntervalSet(fs_, fe_)
+    if form == "tuples":
+        return nap.IntervalSet(tuple(fs_), tuple(fe_))
+    if form == "scalars" and len(ep) == 1:
+        return nap.IntervalSet(fs_[0], fe_[0])
+    if form == "npscalars" and len(ep) == 1:
+        return nap.IntervalSet(np.float64(fs_[0]), np.float64(fe_[0]))
+    if form == "pairs" and ep:
+        return nap.IntervalSet(np.array([[a, b] for a, b in zip(fs_, fe_)]))
+    if form == "df":
+        return nap.IntervalSet(pd.DataFrame({"start": fs_, "end": fe_}, dtype=float))
+    if form == "series":
+        return nap.IntervalSet(pd.Series(fs_, dtype=float), pd.Series(fe_, dtype=float))
+    if form == "meta":
+        return nap.IntervalSet(G.arr(st), G.arr(en), metadata={"lab": ["e%d" % i for i in range(len(ep))]})
+    if form in ("ms", "us"):
+        q = 1e6 if form == "ms" else 1e3
+        return nap.IntervalSet(np.asarray(st, dtype=np.float64) / q, np.asarray(en, dtype=np.float64) / q, time_units=form)
+    if form in ("int", "uint") and ep and all(v % 10 ** 9 == 0 for v in st + en) and (form == "int" or st[0] >= 0):
+        dt_ = np.int64 if form == "int" else np.uint64
+        return nap.IntervalSet(np.asarray([v // 10 ** 9 for v in st], dtype=dt_), np.asarray([v // 10 ** 9 for v in en], dtype=dt_))
+    if form == "intms" and ep and all(v % 10 ** 6 == 0 for v in st + en):
+        return nap.IntervalSet(np.asarray([v // 10 ** 6 for v in st], dtype=np.int64), np.asarray([v // 10 ** 6 for v in en], dtype=np.int64), time_units="ms")
+    if form == "indexed" and ep:
+        # the epochs are a selection out of a larger IntervalSet (one more interval far before)
+        big = nap.IntervalSet(G.arr([st[0] - 200 * g] + st), G.arr([st[0] - 190 * g] + en))
+        return big[1] if len(ep) == 1 else big[list(range(1, len(ep) + 1))]
+    if form == "sliced" and ep:
+        big = nap.IntervalSet(G.arr([st[0] - 200 * g] + st), G.arr([st[0] - 190 * g] + en))
+        return big[1:]
+    if form == "intersect" and ep:
+        return nap.IntervalSet(G.arr(st), G.arr(en)).intersect(nap.IntervalSet(G.arr([st[0] - 100 * g]), G.arr([en[-1] + 100 * g])))
+    if form == "union" and ep:
+        out = nap.IntervalSet(G.arr(st[:1]), G.arr(en[:1]))
+        for a, b in zip(st[1:], en[1:]):
+            out = out.union(nap.IntervalSet(a / 1e9, b / 1e9))
+        return out
+    return nap.IntervalSet(G.arr(st), G.arr(en))       # "arrays"
+
+
+def ep_forms(ep, one):
+    out = ["arrays", "lists", "tuples", "pairs", "df", "series", "meta", "ms", "us", "indexed", "sliced", "intersect", "union"]
+    if one:
+        out += ["scalars", "npscalars"]
+    vals = [v for iv in ep for v in iv]
+    if vals and all(v % 10 ** 9 == 0 for v in vals):
+        out += ["int"] + (["uint"] if min(vals) >= 0 else [])
+    if vals and all(v % 10 ** 6 == 0 for v in vals):
+        out += ["intms"]
+    return out
+
+
+def call_single(nap, op, sig, F, kw, full, norm):
+    f = nap.compute_fft if op == "fft" else nap.compute_power_spectral_density
+    names = ["fs", "ep", "full_range"] + (["norm"] if op == "fft" else []) + ["n"]
+    vals = {"fs": kw.get("fs"), "ep": kw.get("ep"), "full_range": full, "norm": norm, "n": kw.get("n")}
+    style = F.get("call", "kw")
+    if style == "pos":                                   # every parameter by position (None where the plain call omits it)
+        return f(sig, *[vals[k] for k in names])
+    if style == "pos2":                                  # the first two by position, the rest by keyword
+        return f(sig, vals["fs"], **{k: vals[k] for k in names[1:] if vals[k] is not None})
+    k2 = {k: vals[k] for k in names if vals[k] is not None}
+    if style == "allkw":                                 # every parameter by keyword, `sig` too, in reverse order
+        k2 = dict(reversed(list(k2.items())))
+        k2["sig"] = sig
+        return f(**k2)
+    if style == "defaults":                              # every optional parameter that is at its default is left out
+        if full is False:
+            k2.pop("full_range")
+        if norm is False:
+            k2.pop("norm", None)
+        return f(sig, **k2)
+    if style == "none":                                  # None (the documented default) written out
+        for k in ("fs", "ep", "n"):
+            k2.setdefault(k, None)
+        return f(sig, **k2)
+    return f(sig, **k2)
+
+
+def call_mean(nap, sig, F, isz, ov, unit, full, kw):
+    f = nap.compute_mean_power_spectral_density
+    isz = mk_scalar(isz, F.get("isform", "float"))
+    ovf = F.get("ovform", "float")
+    ovv = int(ov) if ovf == "int" else mk_scalar(ov, ovf)
+    ustr = F.get("unitcase") or unit
+    style = F.get("call", "kw")
+    vals = {"fs": kw.get("fs"), "overlap": ovv, "ep": kw.get("ep"), "full_range": full, "time_unit": ustr}
+    names = ["fs", "overlap", "ep", "full_range", "time_unit"]
+    if style == "pos":
+        return f(sig, isz, *[vals[k] for k in names])
+    if style == "pos2":
+        return f(sig, isz, vals["fs"], vals["overlap"], **{k: vals[k] for k in names[2:] if vals[k] is not None})
+    k2 = {k: vals[k] for k in names if vals[k] is not None}
+    if style == "allkw":
+        k2 = dict(reversed(list(k2.items())))
+        k2["interval_size"] = isz
+        k2["sig"] = sig
+        return f(**k2)
+    if style == "defaults":
+        if ov == 0.25 and ovf == "float":
+            k2.pop("overlap")
+        if full is False:
+            k2.pop("full_range")
+        if ustr == "s":
+            k2.pop("time_unit")
+        return f(sig, isz, **k2)
+    if style == "none":
+        for k in ("fs", "ep"):
+            k2.setdefault(k, None)
+        return f(sig, isz, **k2)
+    return f(sig, isz, **k2)
+
+
+def rand_col(r, m, dtype, kind):
+    lo, hi = (0, 1) if dtype == "bool" else (0, 18) if dtype in UNSIGNED else (-9, 9)
+    if kind == "zeros":
+        return [0] * m
+    if kind == "constant":
+        v = r.randint(max(lo, 1), hi)
+        return [v] * m
+    col = [r.randint(lo, hi) for _ in range(m)]
+    if not any(col) and m:
+        col[0] = 1
+    return col
+
+
+WIDE_RULE = ("WIDENED ARGUMENT FORMS (seeded random product, same oracles; counters wide:*): "
+             "[data dtype] float64/float32/float16, int8..int64, uint8..uint64, bool; all-zero and constant columns; NaN, +inf, -inf samples (and +inf/-inf in one row of a TsdFrame) outside the "
+             "epoch (must not matter) and inside it (exactly the bins of that column are non-finite). "
+             "[time / scalar forms] `t` as ndarray, list, tuple, pandas Index, pandas Series/DataFrame index, another object's TsIndex, its .t, float32, signed/unsigned integer arrays (whole-second lattice); "
+             "fs as Python float/int, np.float64/float32, np.int64/int32/int16/int8/uint8/uint16; interval_size as float/int/np.float32/np.int64; overlap as float/np.float64; "
+             "IntervalSet from arrays, lists, tuples, scalars, numpy scalars, array of pairs, DataFrame, Series, integer/unsigned arrays, with metadata, time_units ms/us, or obtained by indexing/slicing/intersect/union. "
+             "[call] every parameter by keyword, by position (None where omitted), mixed, all keywords incl. sig in reverse order, defaults left out (full_range, norm, overlap=0.25, time_unit), None written out; flags combined at random. "
+             "[units] the signal built with time_units s/ms/us, the IntervalSet too, interval_size in s/ms/us: the same instants. "
+             "[placement] signals starting at 0, straddling 0, entirely negative, at +1e5 s (dyadic lattice); decimal lattices from negative origins. "
+             "[degenerate] duplicate timestamps, all timestamps equal (explicit support), one sample, an epoch without samples (n given: the zero signal; n None: lenient), an empty series (ep and n given), "
+             "an empty IntervalSet, 1-3 epochs; classes other than Tsd/TsdFrame are recorded. "
+             "[classes] Tsd, TsdFrame with 1/2/3 columns, string / unsorted integer column labels, metadata. "
+             "[histories] the signal obtained by restrict, slice, get, arithmetic, np.copy, a ufunc, save+load, a column (view) of a wider frame, time and data sharing one buffer, read-only arrays, "
+             "the same live objects used by all operations before the judged call. "
+             "lenient (a clean exception or the statement): n as a numpy integer, overlap as Python int / np.float32, time_unit in another letter case, an epoch without samples with n=None. "
+             "Model comparison is skipped (statement oracle kept) for single-precision data / fs, wrapped integer fs*n and non-finite samples inside the epoch")
+
+
+DTYPES = ["float64"] * 4 + ["float32", "float32", "float16", "int64", "int64", "int32", "int16", "int8", "uint8", "uint16", "uint32", "uint64", "bool"]
+HISTS = [None] * 6 + ["restrict", "slice", "get", "arith", "numpy", "ufunc", "saveload", "twice", "shared", "readonly", "colview"]
+CALLS = ["kw", "kw", "pos", "pos2", "allkw", "defaults", "none"]
+
+
+def pick_form(r, ticks, g, ncol, allow_cut=True):
+    """random argument forms for a signal on `ticks` (all choices derive from r)"""
+    F = {"g": g}
+    F["dtype"] = r.choice(DTYPES)
+    unit = r.choice(["s", "s", "s", "ms", "us"])
+    forms = time_forms(ticks, unit)
+    tform = r.choice(forms) if r.random() < 0.6 else "ndarray"
+    ints = [x for x in forms if x in INT_T]
+    if ints and r.random() < 0.5:
+        tform = r.choice(ints)
+    if tform in ("TsIndex", "other.t"):
+        pass                        # the unit is consumed by the object the index is taken from
+    F["tform"], F["tunit"] = tform, unit
+    hist = r.choice(HISTS)
+    if hist in ("restrict", "slice", "get") and (not allow_cut or not ticks or len(set(ticks)) < len(ticks)):
+        hist = "numpy"
+    if hist in ("restrict", "slice", "get"):
+        # the longer object must be expressible in the same time form
+        big = [ticks[0] - 65 * g, ticks[0] - 64 * g] + list(ticks) + [ticks[-1] + 64 * g, ticks[-1] + 65 * g]
+        if tform not in time_forms(big, unit):
+            F["tform"] = "ndarray"
+    if hist == "saveload" and F["dtype"] == "float16":
+        hist = "numpy"
+    F["hist"] = hist
+    if ncol > 1 or r.random() < 0.25:
+        F["cls"] = "TsdFrame"
+        F["labels"] = r.choice([None, None, "str", "int"])
+        F["meta"] = r.random() < 0.3
+    else:
+        F["cls"] = "Tsd"
+    F["call"] = r.choice(CALLS)
+    return F
+
+
+def count_form(res, tag, F, c):
+    for k in ("dtype", "tform", "tunit", "hist", "cls", "call", "fsform", "nform", "epform", "isform", "ovform", "labels", "lenient", "unitcase"):
+        if k in F and not (k == "labels" and F.get("cls") != "TsdFrame"):
+            res.count("%s:%s=%s" % (tag, k, F[k]))
+    if F.get("meta"):
+        res.count(tag + ":TsdFrame_with_metadata")
+    t0 = c["ts"][0] if c["ts"] else 0
+    t1 = c["ts"][-1] if c["ts"] else 0
+    res.count(tag + ":placement=" + ("offset_1e5s" if t0 >= 10 ** 13 else "all_negative" if t1 < 0 else "straddles_0" if t0 < 0 else "from_0"))
+    kinds = set()
+    for col in c["cols"]:
+        if any(not np.isfinite(v) for v in col):
+            kinds.add("nonfinite")
+        elif col and not any(col):
+            kinds.add("zeros")
+        elif col and len(set(col)) == 1:
+            kinds.add("constant")
+    for k in kinds:
+        res.count(tag + ":data=" + k)
+
+
+def wide_single_cases(tier, seed):
+    rng = random.Random(seed * 41 + 13)
+    want = 2000 if tier == "quick" else 20000
+    cases = []
+    while len(cases) < want:
+        i = len(cases)
+        r = random.Random(seed * 43 + 17 * i + rng.randrange(10 ** 9))
+        g = r.choice([2 * U, 2 * U, 2 * U, 10 ** 9])
+        h = g // 2
+        m = r.randint(1, 9)
+        shape = r.random()
+        if shape < 0.10 and m >= 2:          # duplicate timestamps
+            idx = sorted(r.randrange(max(1, m - 1)) for _ in range(m))
+            if len(set(idx)) < 2:
+                idx[-1] = idx[0] + 1
+        elif shape < 0.13:                   # every timestamp equal (explicit support below)
+            idx = [0] * m
+        else:
+            idx = list(range(m))
+        off = r.choice([0, 0, 0, -3, -1000, 10 ** 14 // g])
+        ts = [g * (j + off) for j in idx]
+        lo_l, hi_l = 2 * (idx[0] + off) - 1, 2 * (idx[-1] + off) + 2
+        ncol = r.choice([1, 1, 2, 3])
+        epk = r.random()
+        lenient = None
+        if epk < 0.25:
+            s = e = None
+        else:
+            for _ in range(50):
+                a, b = sorted((r.randint(lo_l, hi_l), r.randint(lo_l, hi_l)))
+                if a < b and (any(a * h <= t <= b * h for t in ts)):
+                    break
+            else:
+                a, b = lo_l, hi_l
+            s, e = a * h, b * h
+        zero_inside = False
+        if epk >= 0.25 and r.random() < 0.04:       # an epoch that holds no sample (beyond the last one)
+            s, e = ts[-1] + 3 * h, ts[-1] + 7 * h
+            zero_inside = True
+        inside = [t for t in ts if (s is None or s <= t <= e)]
+        ln = len(inside)
+        n = r.choice([None, None, 1, max(1, ln - 1), max(1, ln), ln + 1, ln + 3])
+        if zero_inside and n is None:
+            lenient = "epoch_without_samples_and_n_None"
+        fs = r.choice([None, 256.0, 1000.0, 7.5, 100.0, 30000.0])
+        full, norm = r.random() < 0.5, r.random() < 0.4
+        F = pick_form(r, ts, g, ncol)
+        distinct = len(set(ts))
+        need_support = distinct < 2
+        if s is None:
+            support = (ts[0] - h, ts[-1] + h) if (need_support or r.random() < 0.5) else None
+        else:
+            support = (min(ts[0], s) - h, max(ts[-1], e) + h) if (need_support or r.random() < 0.5) else None
+        if F["hist"] in ("slice", "get"):
+            support = (ts[0] - 66 * g, ts[-1] + 66 * g)       # a slice keeps the time support of the longer object
+        if F["hist"] == "restrict" and support is not None:
+            support = (max(support[0], ts[0] - 60 * g), min(support[1], ts[-1] + 60 * g))
+        if s is None:
+            s1, e1 = (ts[0], ts[-1]) if support is None else support
+            ep = False
+        else:
+            s1, e1, ep = s, e, True
+            F["epform"] = r.choice(ep_forms([(s, e)], True))
+        kind = [r.choice(["random"] * 8 + ["zeros", "constant"]) for _ in range(ncol)]
+        cols = [rand_col(r, len(ts), F["dtype"], k) for k in kind]
+        # NaN / +inf / -inf samples (float data): outside the epoch they must not matter, inside every bin of that column is non-finite
+        if F["dtype"] in ("float64", "float32") and r.random() < 0.12:
+            rows = [j for j, t in enumerate(ts) if not (s1 <= t <= e1)] if r.random() < 0.6 else list(range(len(ts)))
+            if rows:
+                j = r.choice(rows)
+                what = r.choice(["nan", "inf", "-inf", "inf-inf"])
+                if what == "inf-inf" and ncol >= 2:      # +inf and -inf in one row (the row sum is NaN)
+                    cols[0][j], cols[1][j] = float("inf"), float("-inf")
+                else:
+                    cols[r.randrange(ncol)][j] = float({"inf-inf": "inf"}.get(what, what))
+                if F["hist"] == "arith":
+                    F["hist"] = "ufunc"
+        if fs is not None:
+            F["fsform"] = r.choice(scalar_forms(fs))
+        if n is not None and r.random() < 0.04:
+            F["nform"] = r.choice(["np.int64", "np.int32"])
+            lenient = "n_numpy_integer"
+        elif fs is not None and lenient is None and r.random() < 0.02:
+            F["fsform"], lenient = "0d", "fs_0d_array"
+        if lenient:
+            F["lenient"] = lenient
+        cases.append({"ts": ts, "cols": cols, "support": support, "ep": ep, "s": s1, "e": e1, "n": n, "fs": fs, "full": full, "norm": norm, "form": F})
+    return cases
+
+
+def classify_single_precision(V, rerun):
+    """a violation of a case computed in single precision is labelled (not excused): within_single_precision = the whole case passes the
+    same oracle at the float32 tolerances (per operation)"""
+    if not V or not any(v["key"].get("data_single_precision") or v["key"].get("fs_single_precision") for v in V):
+        return
+    saved = dict(TOL)
+    TOL.update(TOL_SINGLE)
+    try:
+        V2 = rerun()
+    finally:
+        TOL.update(saved)
+    bad_ops = {v2["key"].get("op") for v2 in V2}
+    for v in V:
+        if v["key"].get("data_single_precision") or v["key"].get("fs_single_precision"):
+            v["key"]["within_single_precision"] = v["key"].get("op") not in bad_ops
+
+
+def run_single_wide(nap, res, cases, tag="wide:single"):
+    lines, offs = [], []
+    for c in cases:
+        l = model_lines_single(c)
+        if not c["norm"]:
+            x = [t for t in c["ts"] if c["s"] <= t <= c["e"]]
+            n1 = len(x) if c["n"] is None else c["n"]
+            l.append("mults\t%d\t%d" % (int(c["full"]), n1))
+        offs.append((len(lines), len(l)))
+        lines.extend(l)
+    mo = C.run_model(lines, driver="driver_c19")
+    for i, c in enumerate(cases):
+        o, k = offs[i]
+        F = c["form"]
+        x = [t for t in c["ts"] if c["s"] <= t <= c["e"]]
+        n1 = len(x) if c["n"] is None else c["n"]
+        res.case((tuple(c["ts"]), repr(c["cols"]), c["support"], c["ep"], c["s"], c["e"], c["n"], c["fs"], c["full"], c["norm"], repr(sorted(F.items()))), nontrivial=n1 >= 2)
+        rel = "n<len" if n1 < len(x) else "n==len" if n1 == len(x) else "n>len"
+        res.count(tag + ":" + rel)
+        res.count(tag + ":ep=" + ("given" if c["ep"] else "None(time support)"))
+        res.count(tag + ":fs=" + ("inferred" if c["fs"] is None else "given"))
+        res.count(tag + ":columns=%d" % len(c["cols"]))
+        if len(set(c["ts"])) < len(c["ts"]):
+            res.count(tag + ":timestamps=" + ("all_equal" if len(set(c["ts"])) == 1 else "duplicates"))
+        if not x:
+            res.count(tag + ":epoch_without_samples")
+        if F["g"] == 10 ** 9:
+            res.count(tag + ":whole_second_lattice")
+        count_form(res, tag, F, c)
+        V, D = check_single(nap, c, mo[o:o + k], res)
+        classify_single_precision(V, lambda: check_single(nap, c, mo[o:o + k], None)[0])
+        res.violations.extend(V)
+        res.disagreements.extend(D)
+        if i % 577 == 0:
+            res.sample({k_: c[k_] for k_ in ("ts", "cols", "s", "e", "n", "fs", "full", "norm", "form")}, limit=9)
+
+
+def _wide_dyadic_mean(r, i):
+    W = 4 * U
+    L = r.choice([W, 2 * W, 3 * W])
+    ov = r.choice([0.0, 0.25, 0.25, 0.25, 0.5, 0.75])
+    if ov in (0.0, 0.5) and r.random() < 0.2:
+        L = 2 * U                       # segments of one to three samples
+    st = int(round((1 - ov) * L))
+    assert st * 4 == int((1 - ov) * 4) * L
+    pts = [j * U for j in range(0, 57, 2)]
+    k = r.choice([1, 1, 1, 2, 2, 3])
+    q = sorted(r.sample(pts, 2 * k))
+    off = r.choice([0, 0, -20 * U, -2000 * U, 10 ** 14])
+    ep = [(q[2 * j] + off, q[2 * j + 1] + off) for j in range(k)]
+    lo, hi = ep[0][0], ep[-1][1]
+    step = r.choice([U, U, 2 * U])
+    ts = list(range(lo - (lo % step), hi + step, step))
+    irregular = r.random() < 0.15
+    if irregular:
+        ts = [t for t in ts if r.random() < 0.8] or ts[:2]
+    if len(ts) < 2:
+        ts = [lo, hi]
+    return {"ts": ts, "ep": ep, "L": L, "st": st, "ov": ov, "irregular": irregular, "g": step, "dt": step}
+
+
+def _wide_decimal_mean(r, i):
+    while True:
+        dt = r.choice([10 ** 8, 10 ** 6, 4 * 10 ** 6, 33333])
+        n = r.randint(12, 70)
+        t0 = r.choice([0, 5 * dt, -7 * dt, -40 * dt, -1234 * dt, 1234 * dt])
+        ts = [t0 + k * dt for k in range(n)]
+        a, b = r.choice([(0, 1), (1, 10), (3, 10), (9, 10), (1, 5), (1, 4), (1, 4), (1, 4), (1, 2), (3, 4), (1, 3), (2, 3), (19, 20)])
+        L = r.choice([3, 4, 5, 8, 10, 15]) * dt + r.choice([0, 0, dt // 2, dt // 4, 1])
+        if (L * (b - a)) % b:
+            L -= L % b
+        st = L * (b - a) // b
+        if st <= 0 or L <= 0:
+            continue
+        m = r.randint(1, 3)
+        cuts = sorted(r.sample(range(0, 2 * n + 2), 2 * m))
+        half = r.choice([0, dt // 2, dt // 2, 1])
+        ep = [(t0 + cuts[2 * j] * dt // 2 - half, t0 + cuts[2 * j + 1] * dt // 2 + r.choice([0, half, dt // 3])) for j in range(m)]
+        if not G.canonical(ep):
+            continue
+        irregular = r.random() < 0.1
+        if irregular:
+            ts = [t for t in ts if r.random() < 0.85] or ts[:2]
+        return {"ts": ts, "ep": ep, "L": L, "st": st, "ov": a / b, "irregular": irregular, "g": dt, "dt": dt, "lattice": "decimal"}
+
+
+def wide_mean_cases(tier, seed):
+    rng = random.Random(seed * 47 + 19)
+    want = 1000 if tier == "quick" else 10000
+    cases = []
+    while len(cases) < want:
+        i = len(cases)
+        r = random.Random(seed * 53 + 29 * i + rng.randrange(10 ** 9))
+        c = _wide_dyadic_mean(r, i) if r.random() < 0.6 else _wide_decimal_mean(r, i)
+        ts, ep, g = c["ts"], c["ep"], c.pop("g")
+        ncol = r.choice([1, 1, 2, 3])
+        ep_given = r.random() < 0.8
+        F = pick_form(r, ts, g, ncol, allow_cut=ep_given)
+        if not ep_given:
+            ep = ep[:1]
+            ts = [t for t in ts if ep[0][0] <= t <= ep[0][1]]
+            if len(set(ts)) < 2:
+                continue
+            if F["tform"] not in time_forms(ts, F["tunit"]):
+                F["tform"] = "ndarray"
+            c["ts"], c["ep"] = ts, ep
+            support = ep[0]
+        else:
+            lo, hi = min(ts[0], ep[0][0]), max(ts[-1], ep[-1][1])
+            support = (lo - c["dt"], hi + c["dt"])
+            if F["hist"] in ("slice", "get"):
+                support = (ts[0] - 66 * g, ts[-1] + 66 * g)
+            elif F["hist"] == "restrict":
+                support = (max(support[0], ts[0] - 60 * g), min(support[1], ts[-1] + 60 * g))
+            if r.random() < 0.02:
+                c["ep"] = ep = []          # an empty IntervalSet: no segment, no estimate
+            F["epform"] = r.choice(ep_forms(ep, False)) if ep else "arrays"
+        kind = [r.choice(["random"] * 8 + ["zeros", "constant"]) for _ in range(ncol)]
+        cols = [rand_col(r, len(ts), F["dtype"], k) for k in kind]
+        if F["dtype"] in ("float64", "float32") and r.random() < 0.10:
+            j = r.randrange(len(ts))
+            what = r.choice(["nan", "inf", "-inf", "inf-inf"])
+            if what == "inf-inf" and ncol >= 2:
+                cols[0][j], cols[1][j] = float("inf"), float("-inf")
+            else:
+                cols[r.randrange(ncol)][j] = float({"inf-inf": "inf"}.get(what, what))
+            if F["hist"] == "arith":
+                F["hist"] = "ufunc"
+        dt = c["dt"]
+        fs = r.choice([None, 1e9 / dt if (10 ** 9) % dt == 0 else 512.0, 1000.0, 37.5, 100.0])
+        if fs is not None:
+            F["fsform"] = r.choice(scalar_forms(fs))
+        unit = r.choice(["s", "s", "ms", "us"])
+        isz = {"s": c["L"] / 1e9, "ms": c["L"] / 1e6, "us": c["L"] / 1e3}[unit]
+        F["isform"] = r.choice(scalar_forms(isz, small_ints=False))
+        if float(mk_scalar(isz, F["isform"])) != isz:
+            F["isform"] = "float"
+        F["ovform"] = r.choice(["float", "float", "np.float64"])
+        lenient = None
+        z = r.random()
+        if z < 0.02 and c["ov"] == 0.0:
+            F["ovform"], lenient = "int", "overlap_python_int"
+        elif z < 0.04:
+            F["ovform"], lenient = "np.float32", "overlap_np_float32"
+        elif z < 0.06:
+            F["unitcase"], lenient = r.choice([unit.upper(), unit.capitalize()]), "time_unit_letter_case"
+            if F["unitcase"] == unit:
+                lenient = None
+                F.pop("unitcase")
+        elif z < 0.075:
+            F["isform"], lenient = "0d", "interval_size_0d_array"
+        elif z < 0.09 and fs is not None:
+            F["fsform"], lenient = "0d", "fs_0d_array"
+        if lenient:
+            F["lenient"] = lenient
+        c.update({"cols": cols, "fs": fs, "full": r.random() < 0.5, "unit": unit, "support": support, "ep_given": ep_given, "form": F})
+        cases.append(c)
+    return cases
+
+
+def run_mean_wide(nap, S, res, tier, seed, tag="wide:mean"):
+    cases = wide_mean_cases(tier, seed)
+    lines = []
+    for c in cases:
+        lines.append("split\t%s\t%d\t%d" % (C.fmt_iset(c["ep"]), c["L"], c["st"]) if c["ep"] else "fftfreq\t1")
+        lines.append("plan\t%s\t%s\t%d\t%d" % (C.fmt_ints(c["ts"]), C.fmt_iset(c["ep"]), c["L"], c["st"]))
+    mo = C.run_model(lines, driver="driver_c19")
+    for i, c in enumerate(cases):
+        F = c["form"]
+        segs = oracle_segments(c["ep"], c["L"], c["st"])
+        res.case((tuple(c["ts"]), repr(c["cols"]), tuple(c["ep"]), c["L"], c["st"], c["fs"], c["full"], c["unit"], c["ep_given"], repr(sorted(F.items()))), nontrivial=len(segs) >= 2)
+        res.count(tag + ":segments=%s" % (len(segs) if len(segs) < 3 else "3+"))
+        res.count(tag + ":epochs=%s" % (len(c["ep"]) if c["ep_given"] else "None(time support)"))
+        res.count(tag + ":lattice=" + c.get("lattice", "dyadic"))
+        res.count(tag + ":overlap=%.4g" % c["ov"])
+        res.count(tag + ":unit=" + c["unit"])
+        res.count(tag + ":fs=" + ("inferred" if c["fs"] is None else "given"))
+        res.count(tag + ":columns=%d" % len(c["cols"]))
+        count_form(res, tag, F, c)
+        dec = c.get("lattice") == "decimal"
+        on_end = any((e - s - c["L"]) % c["st"] == 0 and e - s - c["L"] >= 0 for s, e in c["ep"])
+        if c["ep"]:
+            V, D, amb = check_split(S, c["ep"], c["L"], c["st"], c["ov"], mo[2 * i], decimal=dec)
+            res.evaluations += 1
+            res.violations.extend(V)
+            res.disagreements.extend(D)
+        V, D, B = check_mean(nap, c, mo[2 * i + 1], res)
+        if (V or B) and dec and on_end:
+            hit = [k for k, (s_, e_) in enumerate(c["ep"]) if (e_ - s_ - c["L"]) % c["st"] == 0 and e_ - s_ - c["L"] >= 0]
+            for r_ in range(1, len(hit) + 1):
+                for sub in itertools.combinations(hit, r_):
+                    V2, _, B2 = check_mean(nap, c, mo[2 * i + 1], res, closed=sub)
+                    if not V2 and not B2:
+                        V, B = [], []
+                        break
+                if not V and not B:
+                    res.float_ambiguous += 1
+                    res.count("float_ambiguous:decimal segment end exactly on the epoch end")
+                    break
+        classify_single_precision(V, lambda: check_mean(nap, c, mo[2 * i + 1], None)[0])
+        res.violations.extend(V)
+        res.disagreements.extend(D + B)
+        if i % 433 == 0:
+            res.sample({k_: c[k_] for k_ in ("ep", "L", "st", "ov", "fs", "full", "unit", "form")} | {"n_samples": len(c["ts"]), "segments": len(segs)}, limit=12)
+
+
+def run_degenerate_wide(nap, res):
+    """receivers and arguments at the edge of the signatures. Determined by the statement: an EMPTY series with an epoch and n given is the n-point zero
+    signal (judged). Not determined (recorded, a clean exception or nothing is required): an empty IntervalSet / an empty series without n for the
+    single-epoch functions, classes other than Tsd / TsdFrame"""
+    tag = "wide:degenerate"
+    for cls in ("Tsd", "TsdFrame"):
+        for n in (1, 2, 3, 4):
+            for full in (False, True):
+                for fsform in ("float", "int", "np.int64"):
+                    for tunit in ("s", "ms", "us"):
+                        c = {"ts": [], "cols": [[]] if cls == "Tsd" else [[], []], "support": None, "ep": True, "s": 0, "e": 8 * U, "n": n, "fs": 256.0, "full": full,
+                             "norm": n % 2 == 0, "form": {"g": 2 * U, "cls": cls, "tunit": tunit, "fsform": fsform, "call": ("kw", "pos", "allkw")[n % 3], "epform": ("arrays", "scalars", "ms")[n % 3]}}
+                        mo = C.run_model(model_lines_single(c) + (["mults\t%d\t%d" % (int(full), n)] if not c["norm"] else []), driver="driver_c19")
+                        res.case(("empty", cls, n, full, fsform, tunit), nontrivial=False)
+                        res.count(tag + ":empty_series(ep and n given: the n-point zero signal)")
+                        V, D = check_single(nap, c, mo, res)
+                        res.violations.extend(V)
+                        res.disagreements.extend(D)
+    import pandas as pd
+    t = G.arr([2 * U * j for j in range(8)])
+    d = np.array([3, 1, 4, 1, 5, 9, 2, 6.0])
+    sig = nap.Tsd(t, d)
+    empty = nap.IntervalSet([], [])
+    others = [("Ts", nap.Ts(t)), ("TsdTensor", nap.TsdTensor(t, np.zeros((8, 2, 2)))), ("TsGroup", nap.TsGroup({0: nap.Ts(t)})), ("ndarray", d),
+              ("pandas.Series", pd.Series(d, index=t)), ("IntervalSet", nap.IntervalSet(0, 1))]
+    for op, f, extra in (("compute_fft", nap.compute_fft, ()), ("compute_power_spectral_density", nap.compute_power_spectral_density, ()),
+                         ("compute_mean_power_spectral_density", nap.compute_mean_power_spectral_density, (8 * U / 1e9,))):
+        for name, o in others:
+            res.evaluations += 1
+            try:
+                f(o, *extra)
+                res.count("%s:class_%s_accepted(recorded: the statement speaks of Tsd / TsdFrame)" % (tag, name))
+            except Exception as ex:
+                res.count("%s:class_%s_rejected=%s" % (tag, name, type(ex).__name__))
+        res.evaluations += 1
+        try:
+            f(sig, *extra, ep=empty)
+            res.count("%s:empty_IntervalSet_accepted(recorded)" % tag)
+        except Exception as ex:
+            res.count("%s:empty_IntervalSet_rejected=%s" % (tag, type(ex).__name__))
+
+
 def run(res, tier, seed):
     nap, S = _nap()
     warnings.simplefilter("ignore")
@@ -731,7 +1582,8 @@ def run(res, tier, seed):
                 "+ PUBLIC compute_mean_power_spectral_density on DECIMAL sampling (0.1 s, 1 ms, 4 ms, 33333 ns) with overlaps {0,.1,.2,.25,.3,1/3,.4,.5,2/3,.7,.75,.9,.95}, interval sizes that are not multiples of "
                 "the sampling step, 1-2 epochs starting on/between samples, ep given or the time support, forced segment ends on the epoch end; oracle = independent "
                 "recomputation (segments strictly inside, Hamming formula, direct DFT, average). + probes: fs=None / ep=None / n=None (the documented defaults) passed explicitly to the three functions. "
-                "non-trivial = n >= 2 points / >= 2 segments; distinct = distinct full inputs")
+                "non-trivial = n >= 2 points / >= 2 segments; distinct = distinct full inputs. "
+                + WIDE_RULE)
     # thorough enumerates the complete structural product (lengths, windows, n, fs, flags; epochs, L, overlap); the integer data values and the
     # irregular-sampling patterns are seeded random, so the space is not declared exhaustive
     res.exhaustive = False
@@ -742,6 +1594,22 @@ def run(res, tier, seed):
     run_split_decimal(S, res, tier, seed)
     run_defaults_explicit(nap, res)
     run_many_epochs_single(nap, res)
+    # widened argument forms (same oracles)
+    run_single_wide(nap, res, wide_single_cases(tier, seed))
+    run_mean_wide(nap, S, res, tier, seed)
+    run_degenerate_wide(nap, res)
+    # float32 / float16 SAMPLES: NumPy >= 2 transforms them in single precision, so the estimate equals the DFT of the samples to the precision of
+    # the samples; a case whose only deviation lies within float32 tolerances of the exact DFT is counted, not reported (the statement does not
+    # promise a double-precision transform of single-precision data). fs / interval_size given as narrow NumPy scalars with float64 samples are NOT
+    # covered by this rule (those were genuine defects, repaired in d2890ba).
+    keep = []
+    for v in res.violations:
+        k = v.get("key", {})
+        if k.get("data_single_precision") and k.get("within_single_precision"):
+            res.count("single_precision_samples:deviation_within_float32_tolerance")
+        else:
+            keep.append(v)
+    res.violations[:] = keep
 
 
 def search(res, seed):
@@ -765,15 +1633,19 @@ def replay(payload):
         c = dict(inp)
         c["support"] = tuple(c["support"]) if c.get("support") else None
         lines = model_lines_single(c)
+        if "form" in c and not c["norm"]:
+            lines.append("mults\t%d\t%d" % (int(c["full"]), c["n"] if c["n"] is not None else sum(1 for t in c["ts"] if c["s"] <= t <= c["e"])))
         mo = C.run_model(lines, driver="driver_c19")
         V, D = check_single(nap, c, mo)
+        classify_single_precision(V, lambda: check_single(nap, c, mo)[0])
     elif "ts" in inp:
         c = dict(inp)
         c["ep"] = [tuple(x) for x in c["ep"]]
         c["support"] = tuple(c["support"]) if c.get("support") else None
-        c["ep_given"] = c["support"] is None or tuple(c["support"]) != tuple(c["ep"][0]) or len(c["ep"]) > 1
+        c["ep_given"] = inp["ep_given"] if "ep_given" in inp else (c["support"] is None or tuple(c["support"]) != tuple(c["ep"][0]) or len(c["ep"]) > 1)
         mo = C.run_model(["plan\t%s\t%s\t%d\t%d" % (C.fmt_ints(c["ts"]), C.fmt_iset(c["ep"]), c["L"], c["st"])], driver="driver_c19")
         V, D, B = check_mean(nap, c, mo[0])
+        classify_single_precision(V, lambda: check_mean(nap, c, mo[0])[0])
         D = D + B
     else:
         ep = [tuple(x) for x in inp.get("ep", [])]
